@@ -315,6 +315,24 @@ func execOp(s *Sexp) string {
 		return execTagtool(s)
 	case "jrt":
 		return execJRT(s)
+	case "jdeep":
+		return execJDeep(s)
+	case "buildself":
+		// (buildself xNAME): CodecForType on a static defined type that refers to itself
+		// through pointers/slices only (no finite TyDef, so outside the model)
+		n, err := unhx(arg(1))
+		rt, ok := staticTypes[string(n)]
+		if err != nil || !ok {
+			return "bad-op"
+		}
+		return guard(func() string {
+			p := &plenc.Plenc{}
+			p.RegisterDefaultCodecs()
+			if _, err := p.CodecForType(rt); err != nil {
+				return "err"
+			}
+			return "ok"
+		})
 	case "desc":
 		return execDesc(s)
 	case "internsched":
@@ -459,6 +477,7 @@ func execOp(s *Sexp) string {
 	case "encm":
 		return "ok"
 	case "dec":
+		lastDecValid = false
 		c, err := parseCtx(s)
 		if err != nil {
 			return "bad-op " + err.Error()
@@ -482,7 +501,7 @@ func execOp(s *Sexp) string {
 			if err != nil {
 				return "bad-op " + err.Error()
 			}
-			if err := c.unmarshalPtr(data, pv); err != nil {
+			if err := measureDecode(c, data, pv, prior); err != nil {
 				return "err"
 			}
 			return "ok " + FromReflect(pv.Elem(), c.td).String()
